@@ -140,5 +140,6 @@ def _merge(modname):
     ITEMS.extend([it for it in m.ITEMS if it[0] not in have])
 
 
-for _m in ('harness.extract_sched', 'harness.extract_c13', 'harness.extract_c14', 'harness.extract_c15', 'harness.extract_c19', 'harness.extract_c20'):
+for _m in ('harness.extract_sched', 'harness.extract_c13', 'harness.extract_c14', 'harness.extract_c15', 'harness.extract_c19', 'harness.extract_c20',
+           'harness.extract_exec'):
     _merge(_m)
